@@ -272,7 +272,9 @@ def _field_initialisers(prog, chk, R, ev):
     # the initialiser value lands in the field's own slot of this object
     g = prog.cfg(f)
     evals = [c for c in g.calls(lambda e: e['k'] == 'mcall' and e.get('callee') == ev.name)]
-    chk.count('field initialiser evaluations', len(evals), 1)
+    if not evals:
+        chk.ob('R08.1', f, f.ln, False, 'runFieldInitialisers evaluates the declared initialiser of each own field (no reachable evaluation found)', key='fields:evaluated')
+    chk.count('field initialiser evaluations', len(evals), 0)
     slots = [v for v in vars_.values() if SX.is_node(v.get('init')) and SX.strip(v['init']).get('k') == 'index' and
              _mentions(SX.strip(v['init'])['base'], lambda x: x.get('k') == 'ref' and x.get('id') == objp) and 'offset' in SX.show(SX.strip(v['init'])['i'])]
     chk.ob('R08.1', f, f.ln, len(slots) == 1, 'the initialised slot is obj->fields[field.offset]', key='fields:slot')
@@ -312,7 +314,9 @@ def _destruction(prog, chk, R, ex):
             ok = src_ok and bool(ctx) and g.must_precede(set(ctx), c)
             chk.ob('R08.2', f, c.ln or f.ln, ok, 'each level executes that level\'s destructor body, in that level\'s class context', key='dtor:level-body')
     rel = [c for c in g.calls(lambda e: e['k'] == 'mcall' and SX.short(e.get('callee', '')) in ('releaseQubit',))]
-    chk.count('qubit releases in destroyObject', len(rel), 1)
+    if not rel:
+        chk.ob('R08.2', f, f.ln, False, 'destroyObject releases the qubit fields of the object (no reachable release found)', key='dtor:release-exists')
+    chk.count('qubit releases in destroyObject', len(rel), 0)
     for c in rel:
         r = g.reachable([c])
         ok = not any(x.id in r for x in execs)
@@ -578,7 +582,9 @@ def _walks(prog, chk, R):
         g = prog.cfg(f)
         pushes = [c for c in g.calls(lambda e: e['k'] == 'mcall' and SX.short(e.get('callee', '')) in ('push_back', 'emplace_back'))]
         if not pushes:
-            raise AnalysisBroken('%s: candidate collection not found' % f.short)
+            chk.ob('R08.4', f, f.ln, False, '%s collects the applicable overloads of every hierarchy level before choosing (no reachable candidate collection found)' % f.short,
+                   key='walk:collects:' + f.short)
+            continue
         for p in pushes:
             heads = [h for h in g.loops() if g.dominates(h, p) and h.id in g.reachable([p])]
             if not heads:
@@ -592,7 +598,9 @@ def _walks(prog, chk, R):
                         _mentions(r, lambda x: x.get('k') == 'member' and x.get('name') == 'base' and _ref_is(x.get('base'), SX.strip(l).get('id'))):
                     cursors.add(SX.strip(l)['id'])
             if not cursors:
-                raise AnalysisBroken('%s: hierarchy cursor not found' % f.short)
+                chk.ob('R08.4', f, outer.ln or f.ln, False, 'the overload walk advances to the base class at each step (no `cur = cur->base` style step found in the walk loop)',
+                       key='walk:advances:' + f.short)
+                continue
             n += 1
             bad = []
             for b in [g.nodes[i] for i in body]:
